@@ -59,6 +59,9 @@ def gen_tree(rnd, methods, maxdepth=4, mac=True):
 
     def mtime():
         t = rnd.randrange(315532800 + 86400, 2114380800)      # 1980 .. 2037
+        if rnd.random() < 0.15:
+            # the time fields are unsigned 32-bit: 2038-01-19 .. 2106 (0x80000000 and up), with the boundary itself now and then
+            t = rnd.choice([0x7ffffffe, 0x80000000, 0x80000002, rnd.randrange(0x80000000, 0xfffffff0)])
         return t & ~1                                         # even seconds: representable in MS-DOS time too
 
     def fill(parent, depth):
@@ -86,6 +89,10 @@ def gen_tree(rnd, methods, maxdepth=4, mac=True):
                     rf = bytes(rnd.randrange(256) for _ in range(rnd.choice([0, 7, 130])))
                     # both forks empty is legitimate too: an empty file archived in Mac mode is exactly one 128-byte envelope
                     e['mac'] = dict(data_fork=df, res_fork=rf, name_ok=rnd.random() < 0.8, len_ok=rnd.random() < 0.85)
+                    if e['mtime'] >= 0x7ffffff0:
+                        # a MacBinary envelope carries the same time as a 32-bit count from 1904, which ends in 2040: such a member
+                        # cannot exist, and an envelope whose time does not match is (rightly) not taken for one
+                        e['mtime'] = 1000000000 + 2 * rnd.randrange(100000)
                 out.append(e)
     fill(b'', 0)
     return out
